@@ -1,6 +1,6 @@
 #!/usr/bin/env python3
 """Renders the per-change results of rounds 3-6 (seeded/matrix_E.json = full cross matrix of round 3;
-seeded/sens_rounds4to7.json = runs of the check(s) of the property a change was written against) as markdown (stdout)."""
+seeded/sens_rounds4to8.json = runs of the check(s) of the property a change was written against) as markdown (stdout)."""
 import json, os
 ROOT = os.path.dirname(os.path.dirname(os.path.abspath(__file__)))
 def meta(sid):
@@ -12,7 +12,7 @@ mE = {}
 p = os.path.join(ROOT, "seeded", "matrix_E.json")
 if os.path.exists(p):
     mE = json.load(open(p))
-sens = json.load(open(os.path.join(ROOT, "seeded", "sens_rounds4to7.json")))
+sens = json.load(open(os.path.join(ROOT, "seeded", "sens_rounds4to8.json")))
 ids = sorted(set(mE) | set(sens))
 word = {0: "silent", 1: "reported", 2: "infrastructure (exit 2)"}
 # the check had already been extended when the first run against these changes started
